@@ -93,9 +93,24 @@ def load_known(pid):
 
 # ---------------------------------------------------------------- running
 
+def race_env():
+    d = tempfile.mkdtemp(prefix="verif-race-")
+    return d, dict(GORACE="log_path=%s/race halt_on_error=0 exitcode=0 history_size=2" % d, GOMEMLIMIT="3GiB")
+
 def replay_once(binary, path, env_extra=None):
     env = goenv()
     env.update(env_extra or {})
+    racedir = None
+    if binary.endswith("-race"):
+        racedir, renv = race_env()
+        env.update(renv)
+    try:
+        return _replay_once(binary, path, env)
+    finally:
+        if racedir:
+            shutil.rmtree(racedir, ignore_errors=True)
+
+def _replay_once(binary, path, env):
     try:
         p = subprocess.run([binary, "-replay", path], env=env, stdout=subprocess.PIPE, stderr=subprocess.PIPE, text=True, timeout=600)
     except subprocess.TimeoutExpired:
@@ -214,10 +229,16 @@ def check(pid, tier, seed):
     for name, b in binaries:
         runs = tcfg["runs"] if name != "race" else tcfg.get("race_runs", tcfg["runs"] // 4)
         env_extra = dict(cfg.get("env") or {})
+        racedir = None
         if name == "race":
-            env_extra.update(GORACE="halt_on_error=0 exitcode=0 history_size=2", GOMEMLIMIT="3GiB")
-        results, wall = fan_out(b, pid, tier, seed, runs, tcfg["budget_s"], known_keys, replay_dir, env_extra=env_extra,
-                                extra_args=["-build", name] if cfg.get("sched") else None)
+            racedir, renv = race_env()
+            env_extra.update(renv)
+        try:
+            results, wall = fan_out(b, pid, tier, seed, runs, tcfg["budget_s"], known_keys, replay_dir, env_extra=env_extra,
+                                    extra_args=["-build", name] if cfg.get("sched") else None)
+        finally:
+            if racedir:
+                shutil.rmtree(racedir, ignore_errors=True)
         wall_runs += wall
         m = merge(results)
         per_build[name] = dict(runs=m["runs"], wall_s=round(wall, 2))
@@ -340,8 +361,12 @@ def cmd_selftest_determinism(ids):
             n = 64
             for gmp in ("1", "4", "16"):
                 for rep in range(2):
-                    res, _ = fan_out(b, pid, "quick", 12345, n, 600, [], tempfile.gettempdir(), digests=True, workers=4,
-                                     env_extra=dict(cfg.get("env") or {}, GOMAXPROCS=gmp, GORACE="halt_on_error=0 exitcode=0"), extra_args=["-shrink", "0"] + (["-build", "x"] if cfg.get("sched") else []))
+                    racedir, renv = race_env()
+                    try:
+                        res, _ = fan_out(b, pid, "quick", 12345, n, 600, [], tempfile.gettempdir(), digests=True, workers=4,
+                                         env_extra=dict(cfg.get("env") or {}, GOMAXPROCS=gmp, **renv), extra_args=["-shrink", "0"] + (["-build", "x"] if cfg.get("sched") else []))
+                    finally:
+                        shutil.rmtree(racedir, ignore_errors=True)
                     digs.append(merge(res)["log_digests"])
             diff = [k for k in digs[0] if any(d.get(k) != digs[0][k] for d in digs[1:])]
             print("%s %s: %d runs x %d processes, %d differing digests" % (pid, os.path.basename(b), len(digs[0]), len(digs), len(diff)))
